@@ -41,3 +41,7 @@ claim("C12", "bounded-exhaustive enumeration of operation multisets, each execut
       "Every multiset of 2-3 (thorough: up to 4) operations over the alphabets is executed in all distinct orders x all orientation patterns; all executions must agree on every eq answer over tracked (sub)terms x relative namings, live-class count, per-term non-redundant slot count and symmetry count.",
       "Differential oracle (no expected value); agreement with the congruence closure itself is C01/C02.",
       "DESIGN.md 5 C12")
+claim("C13", "bounded-exhaustive enumeration of ordered operation sequences (unions, insertions, rewrite iterations) on the real e-graph with a per-step monitor of everything recorded earlier",
+      "Every ordered sequence of <=5 (quick) / <=6 (thorough) operations over union/insert alphabets plus three rewrite-iteration operations is executed; after every step every handle ever returned must canonicalise idempotently to a live class, compare, extract (extracted term looks up to it), slot sets only shrink, every pair that once compared equal (also up to a slot swap) still does, and the ProgressMeasure moves in the documented lexicographic direction.",
+      "At most 40 handles tracked per execution; rewrite rules are Sym-language rules chosen to merge, eliminate and introduce nodes.",
+      "DESIGN.md 5 C13")
